@@ -161,6 +161,10 @@ def main(argv):
             cands.append({"name": "g%03d.as" % g, "text": progen.gen_program(vsim.Rng(seed, "c09-gen", g), size=size,
                                                                               force=("frag",) if g % 4 == 1 else (("chain",) if g % 4 == 2 else ())).encode(),
                           "origin": "generated"})
+        # one dedicated program for a known finding (raw records with a narrow field before a
+        # pointer field, compiled route): kept apart so that it masks nothing else
+        rr = progen.b_rawrec("0", vsim.Rng(seed, "c09-rawrec"), 60)
+        cands.append({"name": "rawrec.as", "text": progen.render([("rawrec", rr[0], rr[2])]).encode(), "origin": "generated"})
         cs = worlds.corpus(max_bytes=5000)
         rngc = vsim.Rng(seed, "c09-corpus")
         rngc.shuffle(cs)
@@ -272,7 +276,8 @@ def main(argv):
         by_key = {}
         for i, v in enumerate(verd):
             if v:
-                by_key.setdefault("%s:%s" % (work[cases[i][0]][1], v), []).append(i)
+                tag = "rawrec:" if work[cases[i][0]][0]["name"] == "rawrec.as" else ""
+                by_key.setdefault("%s%s:%s" % (tag, work[cases[i][0]][1], v), []).append(i)
         for key in sorted(by_key):
             ids = by_key[key]
             text = out.classify(key)
